@@ -362,5 +362,5 @@ func checkCase(c Case) error {
 func TestObjects(t *testing.T) { vt.Run(t, prop, "TestObjects", genCase, checkCase) }
 
 func TestReplay(t *testing.T) {
-	vt.Replay(t, map[string]func(json.RawMessage) error{"TestObjects": vt.Decode(checkCase)})
+	vt.Replay(t, map[string]func(json.RawMessage) error{"TestObjects": vt.Decode(checkCase), "TestReference": vt.Decode(checkRef)})
 }
